@@ -136,40 +136,78 @@ func (R *Repository) tryUpdateSignatureCertFromChain(entry *Entry, chains *core.
 	}
 }
 
-func (R *Repository) loadCRL(entry *Entry, chains *core.CertificateChains) (err error) {
+// stageCRL downloads and parses the CRL of the entry into a new temporary store and verifies it according to the
+// signature validation mode. The live store of the entry is not touched, so a CRL which is rejected or only
+// partially read never becomes visible, neither now nor after a restart
+func (R *Repository) stageCRL(entry *Entry, chains *core.CertificateChains, crlLocations *core.CRLLocations) (store crlstore.CRLStore, err error) {
 	R.logger.Debug("loading crl", zap.String("crl", entry.CRLLoader.GetDescription()))
 	tempFileName, err := R.createTempFile()
 	if err != nil {
-		return err
+		return nil, err
 	}
 	defer utils.CloseWithErrorHandling(func() error { return os.Remove(tempFileName) })
 	err = entry.CRLLoader.LoadCRL(tempFileName)
 	if err != nil {
-		return err
+		return nil, err
 	}
-	var processor = crlstore.CRLPersisterProcessor{CRLStore: entry.CRLStore}
+	identifier, err := entry.CRLLoader.GetCRLLocationIdentifier()
+	if err != nil {
+		return nil, err
+	}
+	store, err = R.Factory.CreateStore(identifier, true)
+	if err != nil {
+		return nil, err
+	}
+	defer func() {
+		if err != nil {
+			store.Close()
+			err2 := store.Delete()
+			if err2 != nil {
+				R.logger.Warn("failed to delete database", zap.Error(err2))
+			}
+			store = nil
+		}
+	}()
+	var processor = crlstore.CRLPersisterProcessor{CRLStore: store}
+	if crlLocations != nil {
+		//the locations are needed for later updates of the crl
+		err = processor.UpdateCRLLocations(crlLocations)
+		if err != nil {
+			return store, err
+		}
+	}
 	result, err := R.crlReader.ReadCRL(processor, tempFileName)
 	if err != nil {
-		return err
+		return store, err
 	}
 	if R.crlConfig.SignatureValidationModeParsed != config.SignatureValidationModeNone {
-		signatureCert, err := verifyCRLSignature(result, chains)
-		if err != nil {
+		signatureCert, verifyErr := verifyCRLSignature(result, chains)
+		if verifyErr != nil {
 			R.logger.Warn("could not validate signature of crl", zap.String("crl", entry.CRLLoader.GetDescription()))
 			if R.crlConfig.SignatureValidationModeParsed == config.SignatureValidationModeVerify {
-				return err
+				err = verifyErr
+				return store, err
 			}
 		} else {
 			R.logger.Debug("signature of crl validated successfully", zap.String("crl", entry.CRLLoader.GetDescription()))
 			err = processor.UpdateSignatureCertificate(signatureCert)
 			if err != nil {
-				return err
+				return store, err
 			}
-			R.logger.Debug("crl loaded successfully", zap.String("crl", entry.CRLLoader.GetDescription()))
 		}
+	}
+	return store, nil
+}
+
+// commitStagedCRL makes a staged store the live store of a not yet loaded entry. The entry lock must be held
+func (R *Repository) commitStagedCRL(entry *Entry, store crlstore.CRLStore) error {
+	err := entry.CRLStore.Update(store)
+	if err != nil {
+		return err
 	}
 	entry.Loaded = true
 	entry.Chains = nil
+	R.logger.Debug("crl loaded successfully", zap.String("crl", entry.CRLLoader.GetDescription()))
 	return nil
 }
 
@@ -280,8 +318,7 @@ func (R *Repository) updateCRL(identifier string) error {
 	if entry != nil {
 		R.logger.Debug("updating crl from " + entry.CRLLoader.GetDescription())
 		if R.isEntryLoaded(entry) == false {
-			//load under the entry lock, handshakes may use the entry concurrently
-			return R.loadActively(entry, nil, entry.Locations)
+			return R.loadInBackground(entry)
 		} else {
 			return R.updateCrlEntry(entry, nil)
 		}
@@ -512,19 +549,36 @@ func (R *Repository) loadActively(entry *Entry, chains *core.CertificateChains, 
 	defer entry.entryLock.Unlock()
 	//check again after getting write lock if entry is still not loaded
 	if entry.Loaded == false {
-		if crlLocations != nil {
-			//the locations are needed for later updates of the crl
-			err := entry.CRLStore.UpdateCRLLocations(crlLocations)
-			if err != nil {
-				return err
-			}
-		}
 		if chains == nil {
 			chains = entry.Chains
 		}
-		return R.loadCRL(entry, chains)
+		store, err := R.stageCRL(entry, chains, crlLocations)
+		if err != nil {
+			return err
+		}
+		return R.commitStagedCRL(entry, store)
 	}
 	return nil
+}
+
+// loadInBackground loads a not yet loaded entry without blocking handshakes while the crl is downloaded and parsed,
+// the entry lock is only held to bring the staged crl into force
+func (R *Repository) loadInBackground(entry *Entry) error {
+	entry.entryLock.RLock()
+	chains := entry.Chains
+	entry.entryLock.RUnlock()
+	store, err := R.stageCRL(entry, chains, entry.Locations)
+	if err != nil {
+		return err
+	}
+	entry.entryLock.Lock()
+	defer entry.entryLock.Unlock()
+	if entry.Loaded {
+		//loaded in meantime by someone else
+		store.Close()
+		return store.Delete()
+	}
+	return R.commitStagedCRL(entry, store)
 }
 
 func (R *Repository) UpdateCRL(crlLocations *core.CRLLocations, chains *core.CertificateChains) error {
